@@ -72,6 +72,10 @@ def third_party_isolation_rules(fb, ctx):
     h = fb.hir_of(b)
     where = f"{b['file']}:{b['line']}"
     loops = [l for l in find_all(h["body"], lambda n: n.get("k") == "loop" and n.get("src") == "ForLoop") if find_all(l, lambda z: z.get("k") == "field" and z.get("name") == "external_signature")]
+    # the same iteration as `self.blocks.iter().map(|block| { .. }).collect::<Result<..>>()`
+    loops += [m for m in find_all(h["body"], lambda z: z.get("k") == "mcall" and z.get("name") in ("map", "for_each", "try_for_each", "filter_map", "try_fold", "fold") and any(isinstance(a, dict) and strip(a).get("k") == "closure" for a in z.get("args", [])))
+              if find_all(m["recv"], lambda z: z.get("k") == "field" and z.get("name") == "blocks") and not find_all(m["recv"], lambda z: z.get("k") == "closure")
+              and any(find_all(a, lambda z: z.get("k") == "field" and z.get("name") == "external_signature") for a in m.get("args", []))]
     if len(loops) != 1:
         ctx.fail("ISOLATE", "extract_blocks: one loop over the blocks", "ISOLATE|extract_blocks|loop", f"found {len(loops)} loops reading external_signature", where)
         return
@@ -112,11 +116,11 @@ def third_party_isolation_rules(fb, ctx):
     ctx.check("extend" in names_else and "insert_fallible" in names_else, "THREAD", "extract_blocks: first-party blocks add their symbols and keys, refusing overlaps", "THREAD|extract_blocks|first-party",
               f"first-party branch calls {names_else}; expected SymbolTable::extend and PublicKeys::insert_fallible", f"{b['file']}:{br['ln']}")
     # all fallible table operations are `?`-propagated
-    mb = b
-    for c in mirq.calls_matching(fb, mb, r"SymbolTable::extend$|PublicKeys::insert_fallible$|SymbolTable::from$|<datalog::symbol::SymbolTable as std::convert::From<.*>>::from$|TryFrom<.*>>::try_from$"):
-        if "SymbolTable" not in (c.rpath or "") and "PublicKeys" not in (c.rpath or ""):
-            continue
-        mirq.result_used(fb, ctx, mb, c, "THREAD", f"extract_blocks: result of {c.callee.split('::')[-1]} is propagated", f"THREAD|extract_blocks|used|{c.callee.split('::')[-1]}")
+    for mb in [b] + mirq.created_closures(fb, b):
+        for c in mirq.calls_matching(fb, mb, r"SymbolTable::extend$|PublicKeys::insert_fallible$|SymbolTable::from$|<datalog::symbol::SymbolTable as std::convert::From<.*>>::from$|TryFrom<.*>>::try_from$"):
+            if "SymbolTable" not in (c.rpath or "") and "PublicKeys" not in (c.rpath or ""):
+                continue
+            mirq.result_used(fb, ctx, mb, c, "THREAD", f"extract_blocks: result of {c.callee.split('::')[-1]} is propagated", f"THREAD|extract_blocks|used|{c.callee.split('::')[-1]}")
     # authorizer side: a third-party block is resolved against its own table
     lb = fb.body("biscuit_auth::token::builder::authorizer::load_and_translate_block")
     lh = fb.hir_of(lb)
